@@ -20,7 +20,8 @@ from .sift_check import parse_behaviours
 
 VARIANTS = ('sift', 'ensemble_sift', 'complete_ensemble_sift', 'mask_sift')
 ORDER = [('max_imfs',), ('newtop',), ('imf_opts', 'sd_thresh'), ('imf_opts', 'rilling_thresh'), ('imf_opts', 'newkey'),
-         ('extrema_opts', 'pad_width'), ('extrema_opts', 'mag_pad_opts', 'stat_length'), ('extrema_opts', 'mag_pad_opts', 'newkey')]
+         ('extrema_opts', 'pad_width'), ('extrema_opts', 'mag_pad_opts', 'stat_length'), ('extrema_opts', 'mag_pad_opts', 'newkey'),
+         ('extrema_opts', 'mag_pad_opts', 'mode')]
 GROUPS = [('imf_opts',), ('extrema_opts',), ('extrema_opts', 'mag_pad_opts')]
 REAL = {'newtop': 'zz_newtop', 'newkey': 'zz_newkey'}
 
@@ -218,6 +219,10 @@ def _behaviour_job(args):
     cfg['max_imfs'] = 2
     cfg['imf_opts/sd_thresh'] = 0.05
     cfg['imf_opts/rilling_thresh'] = (0.05, 0.5, 0.05)
+    if seed % 2:
+        # the Rilling rule is the consumer of rilling_thresh: after a round trip the tuple is a list and must work the same
+        cfg['imf_opts/stop_method'] = 'rilling'
+        cfg['imf_opts/max_iters'] = 200
     cfg['extrema_opts/pad_width'] = 3
     cfg['envelope_opts/interp_method'] = 'pchip'
     kw = dict(max_imfs=2, imf_opts=dict(cfg['imf_opts']), envelope_opts=dict(cfg['envelope_opts']), extrema_opts=copy.deepcopy(cfg['extrema_opts']))
@@ -305,7 +310,7 @@ def run():
             else:
                 ctx.cov['traces_validated_against_impl'] += 1
     ctx.sample({'leg': 'B', 'history': paths[len(paths) // 2], 'expected': states[json.dumps(paths[len(paths) // 2])]})
-    recs = [r for p in core.pmap(_behaviour_job, [(v, ctx.work, s) for v in VARIANTS for s in range(ctx.pick(1, 3))], workers=8) for r in p]
+    recs = [r for p in core.pmap(_behaviour_job, [(v, ctx.work, s) for v in VARIANTS for s in range(ctx.pick(2, 4))], workers=8) for r in p]
     bad = core.validate_records(ctx, 'SiftConfigRec', recs, name='SiftConfigRec')
     ctx.sample(recs[1])
     ctx.leg('B', histories_replayed=len(paths), mismatches=nbad)
